@@ -431,6 +431,8 @@ def common_dims(runs):
     d = []
     if all(r["o"].get("msm") for r in runs):
         d.append("msm-only")
+    if all(r["o"].get("noctx") for r in runs):
+        d.append("context-dependent")
     if all(r["o"].get("rms", 0) >= max(r["o"].get("rs", 0), 128) and r["o"].get("rms", 0) > 0 for r in runs):
         d.append("growable-registry-only")
     return d
@@ -452,6 +454,11 @@ def limit_key(kind, fam, why, badruns):
         return "C12:autostack:SetSp(Sp)-on-full-segment"
     if all(r["o"].get("msm") and r["o"].get("css", 0) > 8 * 65536 for r in badruns):
         return "C12:autostack:segIdx-uint16-wrap"
+    if why == "nested-resumes-unbounded":
+        return "C12:nested-resume:no-bound-before-fatal-go-stack-overflow"
+    if why == "error-is-a-converted-go-panic" and "msm-only" in (common_dims(badruns) if len(badruns) >= 3 else ["msm-only"]) \
+            and ums == ["lua-callstack-overflow"]:
+        return "C12:autostack:overflow-is-go-panic-not-lua-error"
     if fam == "rec:tail-into-wide-frame" and (why == "crash" or ums == ["index-out-of-range"]):
         return "C12:tailcall:registry-overflow-raises-go-panic"
     if "xpcall" in fam and ums == ["registry-overflow"]:
@@ -558,7 +565,7 @@ def probe_part(tier, sweep_tuples, verd, stats, cov):
     recs = []
     for pi, pr in enumerate(probes):
         recs.append({"id": pi + 1, "kind": "probe", "name": pr["name"], "B": pr["B"], "F": pr["F"], "B0": pr["B0"],
-                     "amin": pr["amin"], "amax": pr["amax"], "cmax": pr["cmax"], "fm": pr["fm"], "runs": []})
+                     "amin": pr["amin"], "amax": pr["amax"], "cmax": pr["cmax"], "fm": pr["fm"], "nmax": pr.get("nmax", 0), "runs": []})
     for k, ((pi, ci), o) in enumerate(zip(index, outs)):
         pr = probes[pi]
         opts, cal, N = pr["cfgs"][ci]
@@ -630,6 +637,8 @@ def sweep_part(tier, sweep_tuples, verd, stats, cov):
         corpus.append(("overflow-then-gen:" + pname, "%s+gen#%d" % (pname, i), pre + src, None))
     for name, src in sorted(c12_progs.OWN_SWEEP.items()):
         corpus.append(("own:" + name, name, src, None))
+    for name, src in sorted(c12_progs.orphan_programs().items()):
+        corpus.append(("own:orphan-coroutine", name, src, None))
     alltuples = [dict({k: t[k] for k in OPT_FIELDS}, noctx=nc) for t in sweep_tuples for nc in (False, True)]
     ladder = [mk_opts(css, rs) for css in CSS + [256] for rs in (0, 128)]      # fixed stack, no growth, context attached
     ref = mk_opts()
@@ -651,7 +660,8 @@ def sweep_part(tier, sweep_tuples, verd, stats, cov):
     outs = run_matrix(items, "sweep")
     vlib.log("[C12] sweep: %d programs, %d runs on the real interpreter (%.0fs); %d programs under all %d tuples"
              % (len(corpus), len(items), time.time() - t1, len(full), len(alltuples)))
-    recs = [{"id": pi + 1, "kind": "sweep", "name": c[1], "fam": c[0], "ref": "", "runs": []} for pi, c in enumerate(corpus)]
+    recs = [{"id": pi + 1, "kind": "sweep", "name": c[1], "fam": c[0], "ref": "", "runs": [],
+             "straddle": c[0] == "own:uncaught-deep-recursion"} for pi, c in enumerate(corpus)]
     refouts = {}
     dropped = set()
     for (pi, o), out in zip(index, outs):
@@ -665,7 +675,8 @@ def sweep_part(tier, sweep_tuples, verd, stats, cov):
         if not recs[pi]["runs"]:
             recs[pi]["ref"] = h
             refouts[pi] = out
-        recs[pi]["runs"].append({"o": o, "oc": out["outcome"][0], "h": h, "um": uncaught(out), "ne": len(out["emits"])})
+        et = str(out["outcome"][2]) if out["outcome"][0] == "err" and len(out["outcome"]) > 2 else ""
+        recs[pi]["runs"].append({"o": o, "oc": out["outcome"][0], "et": et, "h": h, "um": uncaught(out), "ne": len(out["emits"])})
     # the reference traces of the generated programs are themselves validated against LuaSem
     recs = [r_ for r_ in recs if r_["runs"]]
     lsprogs = [{"id": pi + 1, "src": c[2], "root": c[3]["root"], "nodes": c[3]["nodes"]} for pi, c in enumerate(corpus)
